@@ -5,7 +5,7 @@ CONSTANTS
   Users = {"u1", "u2", "u3"}
   Consumers = {"u3"}
   Actors = {"u3", "u1"}
-  MaxH = 9
+  MaxH = 6
   MaxCtx = 1
   InitBal = 12
   TaxNum = 1
@@ -17,15 +17,15 @@ CONSTANTS
   MinDepP = 2
   Wait = 2
   FeeCaps = {2, 4}
-  Timeouts = {1, 2}
+  Timeouts = {1}
   Freqs = {0, 2}
   Totals = {2}
   RepeatedVals = {TRUE, FALSE}
-  Modules = TRUE
-  BindOps = FALSE
-  SetupSpec <- SetupA
+  Modules = FALSE
+  BindOps = TRUE
+  SetupSpec <- SetupB
   ProvSeqs <- ProvSeqsA
-  UpdateSpecs <- UpdateSpecsA
+  UpdateSpecs <- UpdateSpecsNone
 VIEW View
 INVARIANTS
   Inv_C07_DepositEscrow
